@@ -101,7 +101,7 @@ class Controller:
     def disarm(self):
         self.countdown = None
 
-    def hit(self, site, when):
+    def hit(self, site, when, can_interrupt=True):
         if self.suspended or os.getpid() != self.pid:
             return          # (child processes forked by the code under test are never interrupted)
         sim = self.sim
@@ -117,7 +117,7 @@ class Controller:
         self.sites_seen.add(site)
         if self.armed is not None and site not in self.armed:
             return
-        if self.countdown is not None:
+        if self.countdown is not None and can_interrupt:
             self.countdown -= 1
             if self.countdown <= 0:
                 self.countdown = None
@@ -144,14 +144,27 @@ class LineTracer:
     def _global(self, frame, event, arg):
         fn = frame.f_code.co_filename
         if fn.startswith(self.root) and (os.sep + 'tests' + os.sep) not in fn:
-            return self._local
+            return self._frame_tracer()
         return None
 
-    def _local(self, frame, event, arg):
-        if event == 'line':
-            self.lines += 1
-            self.ctl.hit(('line', frame.f_code.co_name, frame.f_lineno), 'line')
-        return self._local
+    def _frame_tracer(self):
+        """One local trace function per frame, remembering the last line it saw. An interrupt is
+        only raised when execution moves *forward* to a later line of the frame: CPython (3.12)
+        skips enclosing `with` clean-up when a trace function raises at a loop back-edge on the
+        same line (one-line loops, inlined comprehensions) or on the way out of a `with` body,
+        which no real interrupt does - such events still count as yield points, not as
+        interruption points."""
+        state = {'last': 0}
+
+        def local(frame, event, arg):
+            if event == 'line':
+                self.lines += 1
+                forward = frame.f_lineno > state['last']
+                state['last'] = frame.f_lineno
+                self.ctl.hit(('line', frame.f_code.co_name, frame.f_lineno), 'line',
+                             can_interrupt=forward)
+            return local
+        return local
 
     def install(self):
         threading.settrace(self._global)
@@ -309,6 +322,28 @@ class sim_locks:
         (threading.Lock, threading.RLock, threading.Event, threading.Condition,
          threading.Semaphore, threading.BoundedSemaphore) = self._saved
         return False
+
+
+_FORK_HOOK = {'installed': False}
+
+
+def install_fork_hook():
+    """Code under test may re-create its module-level locks in an `os.register_at_fork` hook
+    (after_in_child). Every run is a forked child, so such a hook fires before any of our code
+    runs there: make sure the lock factories are already the simulator-aware ones at that moment
+    (hooks run in registration order, this one is registered before bycycle is imported). The
+    replacements behave exactly like the real classes whenever no simulation is active."""
+    if _FORK_HOOK['installed'] or not hasattr(os, 'register_at_fork'):
+        return
+    _FORK_HOOK['installed'] = True
+
+    def in_child():
+        from . import simpool
+        threading.Lock, threading.RLock = SimLock, SimRLock
+        threading.Event, threading.Condition = simpool.SimAwareEvent, simpool.SimAwareCondition
+        threading.Semaphore = simpool.SimAwareSemaphore
+        threading.BoundedSemaphore = simpool.SimAwareBoundedSemaphore
+    os.register_at_fork(after_in_child=in_child)
 
 
 class Baton:
